@@ -250,10 +250,8 @@ impl ZipOffsetBlobStoreBuilder {
     /// Calculate checksum for data
     fn calculate_checksum(&self, data: &[u8]) -> u32 {
         // TODO: Implement hardware-accelerated CRC32C
-        // For now, use simple checksum
-        data.iter().fold(0u32, |acc, &byte| {
-            acc.wrapping_mul(31).wrapping_add(byte as u32)
-        })
+        // Must be the function ZipOffsetBlobStore::calculate_crc32c verifies on read
+        data.iter().fold(0u32, |acc, &byte| acc.wrapping_add(byte as u32))
     }
 
     /// Finish building and return the completed ZipOffsetBlobStore
